@@ -1,5 +1,6 @@
 import LexVerif.Props.C01Final
 import LexVerif.Props.C05
+import LexVerif.Proof.BinaryWide
 /-!
 # Props.C05Final — the non-decimal pipeline: `parseFloatAlgoModel slowModel = parseFloatModel` for every radix class
 
@@ -20,6 +21,7 @@ open LexVerif.Spec LexVerif.Model LexVerif.Model.ParseFloatAlgo
 open LexVerif.Proof.RoundNE LexVerif.Proof.ExtRound LexVerif.Proof.Pipeline LexVerif.Proof.Bell
 open LexVerif.Props.C01 (IsLemireFloat IsI64 Bracket)
 open LexVerif.Props.C01Main LexVerif.Props.C01SlowMain LexVerif.Props.C01Final LexVerif.Props.C05
+open LexVerif.Proof.BinaryWide (ExpWide)
 
 /-! ## generic radices: Bellerophon -/
 
@@ -158,11 +160,25 @@ theorem clz_small55 {w : Nat} (h1 : 2 ^ 55 ≤ w) (h2 : w < 2 ^ 64) : 2 * 2 ^ cl
   have h16 : 2 ^ clz64 w ≤ 2 ^ 8 := Nat.pow_le_pow_right (by decide) (by omega)
   omega
 
+/-- the booked truncation error of a mantissa of at least 54 bits is at most 1025 units -/
+theorem clz_small54 {w : Nat} (h1 : 2 ^ 54 ≤ w) (h2 : w < 2 ^ 64) : 2 * 2 ^ clz64 w + 1 ≤ 1025 := by
+  obtain ⟨_, _, hlt, _⟩ := LexVerif.Proof.BinaryCorrect.clz_norm (M := w) (by
+    have := Nat.two_pow_pos 54; omega) h2
+  have : 2 ^ 54 * 2 ^ clz64 w < 2 ^ 54 * 2 ^ 10 := by
+    calc 2 ^ 54 * 2 ^ clz64 w ≤ w * 2 ^ clz64 w := Nat.mul_le_mul_right _ h1
+      _ < 2 ^ 64 := hlt
+      _ = 2 ^ 54 * 2 ^ 10 := by norm_num
+  have h5 := Nat.lt_of_mul_lt_mul_left this
+  have h4 : clz64 w < 10 := (Nat.pow_lt_pow_iff_right (by decide : 1 < 2)).mp h5
+  have h16 : 2 ^ clz64 w ≤ 2 ^ 9 := Nat.pow_le_pow_right (by decide) (by omega)
+  omega
+
 /-- **a generic-radix `Number`, truncated mantissa** (at least 55 bits, as every `u64_step`-digit mantissa has): the value
 of all the digits is a true value of the `Number` (`htv`); a valid answer of `bellerophon` is right, an invalid-marked one
 brackets the value; `hslow`: what `slow_radix` returns for it -/
 theorem numberToFloat_generic_truncated {F : FTy} (hF : IsLemireFloat F) (slow : SlowRadix) (c : Cfg) (G : GenericClass c)
-    (n : Number) (hmany : n.manyDigits = true) (hw : n.mantissa < 2 ^ 64) (hw55 : 2 ^ 55 ≤ n.mantissa)
+    (n : Number) (hmany : n.manyDigits = true) (hw : n.mantissa < 2 ^ 64) (hw54 : 2 ^ 54 ≤ n.mantissa)
+    (hw55 : F = FTy.f64 → 2 ^ 55 ≤ n.mantissa)
     (htv : TrueValue c.mantissaRadix (numOf n) (litFrac c.mantissaRadix c.exponentBase (numberLit c n)).1
       (litFrac c.mantissaRadix c.exponentBase (numberLit c n)).2)
     (hslow : ∀ fp, moderatePath c F (numOf n) false = .ok fp → fp.exp < 0 →
@@ -190,8 +206,8 @@ theorem numberToFloat_generic_truncated {F : FTy} (hF : IsLemireFloat F) (slow :
   have hlitpos := litFrac_den_pos (show 0 < c.mantissaRadix by omega) (show 0 < c.exponentBase by omega) (numberLit c n)
   have hmw : (numOf n).manyDigits = true → 2 ^ 44 ≤ (numOf n).mantissa := by
     intro _
-    have : (2 : Nat) ^ 44 ≤ 2 ^ 55 := by decide
-    exact Nat.le_trans this hw55
+    have : (2 : Nat) ^ 44 ≤ 2 ^ 54 := by decide
+    exact Nat.le_trans this hw54
   -- the specification side
   have hbits : numberBits c F.fmt n = litBits F.fmt c.mantissaRadix c.exponentBase (numberLit c n) := by
     unfold numberBits numberLit
@@ -217,21 +233,32 @@ theorem numberToFloat_generic_truncated {F : FTy} (hF : IsLemireFloat F) (slow :
       rfl
     · have hinv : fp.exp < 0 := by omega
       obtain ⟨_, _, hE⟩ := bellerophon_invalid_est lay hc (numOf n) hw hmw _ _ hlitpos htv hbel hinv
-      have hch : (8 + if (numOf n).manyDigits then 2 * 2 ^ clz64 (numOf n).mantissa + 1 else 0) ≤ 521 := by
+      obtain ⟨CH, hch, h8, hCH0⟩ : ∃ CH, (8 + if (numOf n).manyDigits then 2 * 2 ^ clz64 (numOf n).mantissa + 1 else 0) ≤ CH ∧
+          2 * CH ≤ 2 ^ (64 - p) ∧ 0 < CH := by
         have e1 : (numOf n).manyDigits = true := hmany
-        rw [e1, if_pos rfl]
-        have := clz_small55 hw55 hw
         have e2 : (numOf n).mantissa = n.mantissa := rfl
-        rw [e2]; omega
+        rw [e1, if_pos rfl, e2]
+        rcases hF with h | h
+        · refine ⟨521, ?_, ?_, by decide⟩
+          · have := clz_small55 (hw55 h) hw; omega
+          · calc 2 * 521 ≤ 2 ^ 11 := by decide
+              _ ≤ 2 ^ (64 - p) := Nat.pow_le_pow_right (by decide) (by omega)
+        · refine ⟨1033, ?_, ?_, by decide⟩
+          · have := clz_small54 hw54 hw; omega
+          · have hp24 : p = 24 := by
+              have hfmt := lay.fmt
+              subst h
+              have h1 : FTy.f32.fmt.p = p := by rw [hfmt]
+              have : FTy.f32.fmt.p = 24 := rfl
+              omega
+            calc 2 * 1033 ≤ 2 ^ 40 := by decide
+              _ ≤ 2 ^ (64 - p) := Nat.pow_le_pow_right (by decide) (by omega)
       have h16 : 4 * 4 ≤ 2 ^ (64 - p) := by
         calc 4 * 4 ≤ 2 ^ 11 := by decide
           _ ≤ 2 ^ (64 - p) := Nat.pow_le_pow_right (by decide) (by omega)
-      have h8 : 2 * 521 ≤ 2 ^ (64 - p) := by
-        calc 2 * 521 ≤ 2 ^ 11 := by decide
-          _ ≤ 2 ^ (64 - p) := Nat.pow_le_pow_right (by decide) (by omega)
       have hbr : Bracket F fp (litFrac c.mantissaRadix c.exponentBase (numberLit c n)).1
           (litFrac c.mantissaRadix c.exponentBase (numberLit c n)).2 :=
-        bracket_of_est2 lay 4 521 h16 h8 (by decide) _ _ _ hlitpos (C01Compact.est2_mono hE hch)
+        bracket_of_est2 lay 4 CH h16 h8 hCH0 _ _ _ hlitpos (C01Compact.est2_mono hE hch)
       have hsp : slowPath slow c F n { fp with exp := fp.exp - invalidFp } =
           slow c F n { fp with exp := fp.exp - invalidFp } := by
         unfold slowPath
@@ -252,11 +279,83 @@ theorem binary_no_panic (F : FTy) (b : Nat) (n : Num) (lossy : Bool) : Binary.bi
 theorem binary_sign (F : FTy) (b m : Nat) (e : Int) (neg many lossy : Bool) :
     Binary.binary F b ⟨m, e, neg, many⟩ lossy = Binary.binary F b ⟨m, e, false, many⟩ lossy := rfl
 
+/-! ## `binary` outside `±2^27` (the saturating `calculate_power2` of /repo commit 220c4cc) -/
+
+/-- outside `±2^27`, inside `ExpWide`: `binary` answers `+∞` / `0`, and so rounds every value `≥ base^e` /
+`< 2^64·base^e` (all values a mantissa word `1 ≤ M < 2^64`, truncated or not, can stand for) -/
+theorem binary_out_of_range {F : FTy} (hF : IsLemireFloat F) {base : Nat} (hb : IsPow2 base) (n : Num) (lossy : Bool)
+    (h0 : n.mantissa ≠ 0) (hm : n.mantissa < 2 ^ 64) (he : ExpWide n.exponent) (hout : ¬ ExpInRange n.exponent) :
+    ∃ fp, Binary.binary F base n lossy = .ok fp ∧ 0 ≤ fp.exp ∧
+      ∀ num den, 0 < den → (0 < n.exponent → base ^ n.exponent.toNat * den ≤ num) →
+        (n.exponent < 0 → num * base ^ (-n.exponent).toNat < 2 ^ 64 * den) →
+        extendedToFloat F fp = roundNE F.fmt num den := by
+  obtain ⟨p, eb, lay⟩ := layout_of hF
+  obtain ⟨lg, hlg⟩ := LexVerif.Proof.BinaryCorrect.isPow2Base_of base hb
+  have h27 : (2 : Int) ^ 27 = 134217728 := by decide
+  have h59 : (2 : Int) ^ 59 = 576460752303423488 := by decide
+  have h27n : (2 : Nat) ^ 27 = 134217728 := by decide
+  have h59n : (2 : Nat) ^ 59 = 576460752303423488 := by decide
+  unfold ExpInRange at hout
+  obtain ⟨he1, he2⟩ := he
+  by_cases hhi : (2 ^ 27 : Int) < n.exponent
+  · refine ⟨_, LexVerif.Proof.BinaryWide.binary_hi lay hb n lossy h0 hm hhi he2, ?_, ?_⟩
+    · show 0 ≤ F.C.infinitePower; rw [lay.infp]; omega
+    · intro num den hd h1 _
+      rw [LexVerif.Proof.BinaryCorrect.ext_infinite lay]
+      exact (LexVerif.Proof.BinaryWide.roundNE_hi lay hlg n.exponent.toNat (by omega) (by omega) num den hd
+        (h1 (by omega))).symm
+  · have hlo : n.exponent < -(2 ^ 27 : Int) := by omega
+    refine ⟨_, LexVerif.Proof.BinaryWide.binary_lo lay hb n lossy h0 hm he1 hlo, Int.le_refl _, ?_⟩
+    intro num den hd _ h2
+    rw [LexVerif.Proof.BinaryCorrect.ext_zero lay]
+    exact (LexVerif.Proof.BinaryWide.roundNE_lo lay hlg (-n.exponent).toNat (by omega) num den hd (h2 (by omega))).symm
+
+/-- **power-of-two radices, untruncated mantissa, every exponent of `ExpWide`**: `pipeline_binary` inside `±2^27`, the
+saturated answers `+∞` / `0` outside -/
+theorem pipeline_binary_wide (slow : SlowRadix) {F : FTy} (hF : IsLemireFloat F) (c : Cfg)
+    (hp : c.feats.powerOfTwo = true) (hr : IsPow2 c.mantissaRadix) (hb : IsPow2 c.exponentBase)
+    (n : Number) (hmany : n.manyDigits = false) (hw : n.mantissa < 2 ^ 64) (he : ExpWide n.exponent)
+    (hx : RatEq (powFrac c.exponentBase n.exponent n.mantissa)
+      (litFrac c.mantissaRadix c.exponentBase (numberLit c n))) :
+    numberToFloat slow c F n false = some (litBits F.fmt c.mantissaRadix c.exponentBase (numberLit c n)) := by
+  by_cases hin : ExpInRange n.exponent
+  · exact pipeline_binary slow hF c hp hr hb n hmany hw hin hx
+  obtain ⟨p, eb, lay⟩ := layout_of hF
+  have hS := radixSet_of_pow2 c.feats hp
+  have hr2 : 2 ≤ c.mantissaRadix ∧ c.mantissaRadix ≤ 36 := by
+    rcases hr with h | h | h | h | h <;> rw [h] <;> omega
+  have hb2 : 2 ≤ c.exponentBase := by
+    rcases hb with h | h | h | h | h <;> rw [h] <;> omega
+  have hmp : moderatePath c F (numOf n) false = Binary.binary F c.exponentBase (numOf n) false := by
+    unfold moderatePath
+    rw [backend_binary _ hp hr]
+  by_cases h0 : n.mantissa = 0
+  · apply numberToFloat_decided slow hF c hr2.1 hr2.2 hb2 n hmany hx
+      (fastContract_radix hF c hS (pow2_mem_radices hS hr) n) (fp := ⟨0, 0⟩) ?_ (Int.le_refl _) ?_
+    · rw [hmp, LexVerif.Proof.BinaryCorrect.binary_eq]
+      have e : (numOf n).mantissa = 0 := h0
+      rw [if_pos e]
+    · rw [h0, LexVerif.Proof.BinaryCorrect.powFrac_zero, LexVerif.Proof.BinaryCorrect.ext_zero lay]
+  · obtain ⟨fp, hbin, hv, hval⟩ := binary_out_of_range hF hb (numOf n) false h0 hw he hin
+    apply numberToFloat_decided slow hF c hr2.1 hr2.2 hb2 n hmany hx
+      (fastContract_radix hF c hS (pow2_mem_radices hS hr) n) (fp := fp) (by rw [hmp]; exact hbin) hv
+    have e3 : (numOf n).exponent = n.exponent := rfl
+    rw [e3] at hval
+    apply hval _ _ (powFrac_den_pos (by omega) _ _)
+    · intro hpos
+      unfold powFrac
+      rw [if_pos (by omega), Nat.mul_one]
+      exact Nat.le_mul_of_pos_left _ (Nat.pos_of_ne_zero h0)
+    · intro hneg
+      unfold powFrac
+      rw [if_neg (by omega)]
+      exact Nat.mul_lt_mul_of_pos_right hw (Nat.pow_pos (by omega))
+
 /-- what the syntax layer owes for a **truncated** `Number` of a power-of-two radix: the mantissa word holds the first
 `u64_step` significant digits, more follow, and the value of the digit slices with the explicit exponent is
 `(all significant digits)·base^exponent / radix^(number of digits beyond u64_step)` -/
 structure TruncPow2At (c : Cfg) (n : Number) : Prop where
-  exp : ExpInRange n.exponent
+  exp : ExpWide n.exponent
   valid : ∀ x ∈ n.integer ++ n.fraction.getD [], x < 256 ∧ Binary.digitVal x c.mantissaRadix < c.mantissaRadix
   long : (smallSetOf c.feats).u64Step c.mantissaRadix < (sigDigits c.mantissaRadix n.integer n.fraction).length
   mant : n.mantissa = LexVerif.Proof.SlowBinary.valOf c.mantissaRadix 0
@@ -373,6 +472,49 @@ theorem numberToFloat_pow2_truncated (slow : SlowRadix) {F : FTy} (hF : IsLemire
       c.mantissaRadix ^ (ds.length - step) :=
     Nat.mul_pos (powFrac_den_pos (by omega) _ _) (Nat.pow_pos (by omega))
   have hcg := roundNE_congr' lay.wf hlitpos hpfpos hvalue
+  by_cases hin : ExpInRange n.exponent
+  swap
+  · -- outside `±2^27`: `binary` answers `+∞` / `0`, which is what the whole literal rounds to
+    obtain ⟨fp, hbin, hv, hval⟩ := binary_out_of_range hF hb (numOf n) false hM0 hw hexp hin
+    have e3 : (numOf n).exponent = n.exponent := rfl
+    rw [e3] at hval
+    have hK : c.mantissaRadix ^ (ds.length - step) ≤ valOf c.mantissaRadix 0 ds := by
+      rw [hsplit]
+      calc c.mantissaRadix ^ (ds.length - step) = 1 * c.mantissaRadix ^ (ds.length - step) := (Nat.one_mul _).symm
+        _ ≤ n.mantissa * c.mantissaRadix ^ (ds.length - step) := Nat.mul_le_mul_right _ (by omega)
+        _ ≤ _ := Nat.le_add_right _ _
+    have hKu : valOf c.mantissaRadix 0 ds < 2 ^ 64 * c.mantissaRadix ^ (ds.length - step) := by
+      rw [hsplit]
+      calc n.mantissa * c.mantissaRadix ^ (ds.length - step) + valOf c.mantissaRadix 0 (ds.drop step)
+          < n.mantissa * c.mantissaRadix ^ (ds.length - step) + c.mantissaRadix ^ (ds.length - step) := by omega
+        _ = (n.mantissa + 1) * c.mantissaRadix ^ (ds.length - step) := by ring
+        _ ≤ 2 ^ 64 * c.mantissaRadix ^ (ds.length - step) := Nat.mul_le_mul_right _ (by omega)
+    have hsound : extendedToFloat F fp = roundNE F.fmt (litFrac c.mantissaRadix c.exponentBase (numberLit c n)).1
+        (litFrac c.mantissaRadix c.exponentBase (numberLit c n)).2 := by
+      rw [hcg]
+      apply hval _ _ hpfpos
+      · intro hpos
+        unfold powFrac
+        rw [if_pos (by omega)]
+        simp only [Nat.one_mul]
+        rw [Nat.mul_comm]
+        exact Nat.mul_le_mul_right _ hK
+      · intro hneg
+        unfold powFrac
+        rw [if_neg (by omega)]
+        simp only
+        calc valOf c.mantissaRadix 0 ds * c.exponentBase ^ (-n.exponent).toNat
+            < 2 ^ 64 * c.mantissaRadix ^ (ds.length - step) * c.exponentBase ^ (-n.exponent).toNat :=
+              Nat.mul_lt_mul_of_pos_right hKu (Nat.pow_pos (by omega))
+          _ = 2 ^ 64 * (c.exponentBase ^ (-n.exponent).toNat * c.mantissaRadix ^ (ds.length - step)) := by ring
+    unfold numberToFloat
+    rw [hfast]
+    simp only
+    rw [hmp, hbin]
+    simp only
+    rw [if_neg (by omega), toNative_eq F fp n.isNegative hsound, hbits, hlit]
+    rfl
+  have hexp := hin
   cases hbin : Binary.binary F c.exponentBase (numOf n) false with
   | panic => exact absurd hbin (binary_no_panic _ _ _ _)
   | ok fp =>
@@ -439,12 +581,13 @@ inductive RadixClass (c : Cfg) : Prop
 
 /-- what the syntax layer owes for one `Number` of a non-decimal radix (the analogue of
 `C01Number.number_exact_of_syntax` / `number_truncated_of_syntax`, which are proved for radix 10):
-untruncated — exact words (power-of-two radices: with an exponent inside `±2^27`); truncated, power-of-two radix — `TruncPow2At`; truncated,
+untruncated — exact words (power-of-two radices: with an exponent inside `±2^59`, `ExpWide`); truncated, power-of-two radix — `TruncPow2At`; truncated,
 generic radix — a mantissa word of at least 55 bits and the value of all the digits in `[w, w+1)·radix^exponent` -/
 def SyntaxFacts (c : Cfg) (n : Number) : Prop :=
-  (n.manyDigits = false → NumberExactAt c n ∧ (IsPow2 c.mantissaRadix → ExpInRange n.exponent)) ∧
+  (n.manyDigits = false → NumberExactAt c n ∧ (IsPow2 c.mantissaRadix → ExpWide n.exponent)) ∧
   (n.manyDigits = true → IsPow2 c.mantissaRadix → TruncPow2At c n) ∧
-  (n.manyDigits = true → GenericClass c → n.mantissa < 2 ^ 64 ∧ 2 ^ 55 ≤ n.mantissa ∧
+  (n.manyDigits = true → GenericClass c → n.mantissa < 2 ^ 64 ∧ 2 ^ 54 ≤ n.mantissa ∧
+    (c.mantissaRadix ≠ 31 → 2 ^ 55 ≤ n.mantissa) ∧
     TrueValue c.mantissaRadix (numOf n) (litFrac c.mantissaRadix c.exponentBase (numberLit c n)).1
       (litFrac c.mantissaRadix c.exponentBase (numberLit c n)).2)
 
@@ -460,7 +603,8 @@ def SlowFacts (slow : SlowRadix) (c : Cfg) (F : FTy) (n : Number) : Prop :=
 
 /-- **C05, one `Number`**: every radix class, truncated or not -/
 theorem numberToFloat_radix (slow : SlowRadix) {F : FTy} (hF : IsLemireFloat F) (c : Cfg) (R : RadixClass c)
-    (n : Number) (hsyn : SyntaxFacts c n) (hslow : GenericClass c → SlowFacts slow c F n) :
+    (n : Number) (hsyn : SyntaxFacts c n) (hslow : GenericClass c → SlowFacts slow c F n)
+    (h31 : c.mantissaRadix = 31 → F = FTy.f64 → n.manyDigits = true → 2 ^ 55 ≤ n.mantissa) :
     numberToFloat slow c F n false = some (numberBits c F.fmt n) := by
   obtain ⟨s1, s2, s3⟩ := hsyn
   cases hmany : n.manyDigits with
@@ -471,7 +615,7 @@ theorem numberToFloat_radix (slow : SlowRadix) {F : FTy} (hF : IsLemireFloat F) 
         rcases hr with h | h | h | h | h <;> rw [h] <;> omega
       have hb2 : 2 ≤ c.exponentBase := by
         rcases hb with h | h | h | h | h <;> rw [h] <;> omega
-      rw [pipeline_binary slow hF c hp hr hb n hmany hx.1 (he hr) hx.2.2]
+      rw [pipeline_binary_wide slow hF c hp hr hb n hmany hx.1 (he hr) hx.2.2]
       rw [(spec_forms hF c hr2.1 hr2.2 hb2 n hmany hx.2.2).2]
     · obtain ⟨_, _, h2, h36⟩ := generic_not_pow2 G.mem
       rw [numberToFloat_generic_exact hF slow c G n hmany hx (hslow G)]
@@ -479,8 +623,11 @@ theorem numberToFloat_radix (slow : SlowRadix) {F : FTy} (hF : IsLemireFloat F) 
   | true =>
     rcases R with ⟨hp, hr, hb⟩ | ⟨G⟩
     · exact numberToFloat_pow2_truncated slow hF c hp hr hb n hmany (s2 hmany hr)
-    · obtain ⟨hw, hw55, htv⟩ := s3 hmany G
-      exact numberToFloat_generic_truncated hF slow c G n hmany hw hw55 htv (hslow G)
+    · obtain ⟨hw, hw54, hw55, htv⟩ := s3 hmany G
+      exact numberToFloat_generic_truncated hF slow c G n hmany hw hw54 (fun hf => by
+        by_cases h : c.mantissaRadix = 31
+        · exact h31 h hf hmany
+        · exact hw55 h) htv (hslow G)
 
 /-- **`C05_radix_main`** — API level: for every radix class (power-of-two radices with every supported exponent base;
 the 29 generic radices of `radix` builds, `compact` or not), `f32`/`f64`, complete and partial parser, the pipeline with
@@ -492,11 +639,14 @@ theorem C05_radix_main (feats : Features) (fmt : Format) (R : RadixClass ⟨feat
     (hsyn : ∀ n cnt, parseFloatSyntax ⟨feats, fmt, false⟩ o isPartial s (formatError feats fmt).isNone =
       .ok (.number n cnt) → SyntaxFacts ⟨feats, fmt, false⟩ n)
     (hslow : ∀ n cnt, parseFloatSyntax ⟨feats, fmt, false⟩ o isPartial s (formatError feats fmt).isNone =
-      .ok (.number n cnt) → GenericClass ⟨feats, fmt, false⟩ → SlowFacts slowModel ⟨feats, fmt, false⟩ F n) :
+      .ok (.number n cnt) → GenericClass ⟨feats, fmt, false⟩ → SlowFacts slowModel ⟨feats, fmt, false⟩ F n)
+    (h31 : fmt.mantissaRadix = 31 → F = FTy.f64 → ∀ n cnt, parseFloatSyntax ⟨feats, fmt, false⟩ o isPartial s
+      (formatError feats fmt).isNone = .ok (.number n cnt) → n.manyDigits = true → 2 ^ 55 ≤ n.mantissa) :
     parseFloatAlgoModel slowModel feats fmt o isPartial F s = parseFloatModel feats fmt o isPartial F.fmt s := by
   apply parseFloatAlgoModel_eq_valid
   intro _ n cnt hp
   exact numberToFloat_radix slowModel hF ⟨feats, fmt, false⟩ R n (hsyn n cnt hp) (hslow n cnt hp)
+    (fun h hf => h31 h hf n cnt hp)
 
 /-- **the full statement** (a `Prop`): the same without residual hypotheses, for the separator-free format classes of C12
 and inputs of bytes shorter than `2^60`. `Props.C05Syntax` discharges `SyntaxFacts` for the classes with exponent base =
